@@ -19,7 +19,7 @@ def run(tier, seed, verdict):
     cr.execute({"C11": verdict})
     c2 = cr.coverage()
     res = mt_check.MtResult()
-    it = 800 if tier == "quick" else 30000
+    it = 800 if tier == "quick" else 8000
     a = [["seed=%d" % (seed * 100 + 50 + i), "iters=%d" % it, "perturb=%d" % (i % 2)] for i in range(3 if tier == "quick" else 8)]
     mt_check.run_mt("C11", "coromt", "asan20d", a, verdict, res, timeout=1800, accept=("C11",))
     core.require_observed(verdict, [k for k in ("outcome_value", "outcome_done") if not res.stats.get(k)], "coromt")
